@@ -111,8 +111,9 @@ def run_case(case, rec):
 
 
 # --------------------------------------------------------------------------------------------------------------
-def _cmp(rec, case, stage, T, ref, out, kind):
-    """Compare a dict of named arrays with the reference dict."""
+def _cmp(rec, case, stage, T, ref, out, kind, floor=None):
+    """Compare a dict of named arrays with the reference dict.  `floor` (e2e stage only): per-output response of the
+    1-thread result to a 1-ulp change of the density matrix, see _sweep."""
     for name, a in out.items():
         b = ref[name]
         a = np.asarray(a, dtype=float)
@@ -121,7 +122,10 @@ def _cmp(rec, case, stage, T, ref, out, kind):
         d = float(np.max(np.abs(a - b))) / sc if b.size else 0.0
         if not np.all(np.isfinite(a)):
             d = float("nan")
-        rec.check("%s[%s]" % (kind, stage + ":" + name), d, TOL, mechanism="%s:%s:%s" % (kind, stage, name),
+        tol = TOL
+        if floor is not None and kind == "team":
+            tol = max(TOL, 8.0 * floor.get(name, 0.0))
+        rec.check("%s[%s]" % (kind, stage + ":" + name), d, tol, mechanism="%s:%s:%s" % (kind, stage, name),
                   detail={"team": T, "max_rel_diff": d})
         key = "bitwise[%s:%s]" % (stage, name)
         rec.notes[key] = bool(rec.notes.get(key, True) and np.array_equal(a, b))
@@ -129,7 +133,24 @@ def _cmp(rec, case, stage, T, ref, out, kind):
             rec.nontrivial("%s:%s:%s:%d" % (kind, stage, name, T))
 
 
-def _stage_outputs(gen, ks, dm, nspin, model, rng_state):
+def _stage_inputs(ks, dm, nspin, model):
+    """Inputs of the stage-level calls, computed once (by pyscf, at one thread): the stage comparisons must feed the C
+    back end bit-identical inputs at every team size.  pyscf's own eval_rho differs by 1 ulp between team sizes, and the
+    Gaussian interpolation plan amplifies one ulp of rho into up to 1e-7 of a feature (measured, see DESIGN.md C10)."""
+    inp = {}
+    if ks._numint.nldfgen is not None:
+        from pyscf.dft import numint as pn
+        ao = pn.eval_ao(ks.mol, ks.grids.coords, deriv=1)
+        lev = model.settings.nldf_settings.sl_level
+        for s in range(nspin):
+            d = dm if nspin == 1 else dm[s]
+            rho = pn.eval_rho(ks.mol, ao, d, xctype=lev, with_lapl=False)
+            rho[:, ks.grids.weights == 0] = 0.0
+            inp["rho%d" % s] = rho
+    return inp
+
+
+def _stage_outputs(gen, ks, dm, nspin, model, rng_state, inp):
     """All public stage outputs for one calculator at the current team size."""
     out = {}
     n, e, v = gen.nr_eval(ks, dm)
@@ -138,14 +159,9 @@ def _stage_outputs(gen, ks, dm, nspin, model, rng_state):
     r = np.random.default_rng(rng_state)
     if ni.nldfgen is not None:
         g = ni.nldfgen
-        from pyscf.dft import numint as pn
-        ao = pn.eval_ao(ks.mol, ks.grids.coords, deriv=1)
-        lev = model.settings.nldf_settings.sl_level
         res = {}
         for s in range(nspin):
-            d = dm if nspin == 1 else dm[s]
-            rho = pn.eval_rho(ks.mol, ao, d, xctype=lev, with_lapl=False)
-            rho[:, ks.grids.weights == 0] = 0.0
+            rho = inp["rho%d" % s].copy()
             f = g.get_features(rho, spin=s)
             vf = r.normal(size=f.shape) * ks.grids.weights
             p = g.get_potential(vf, spin=s)
@@ -239,20 +255,32 @@ def _sweep(case, rec, rng):
     dm = gen.psd_dm(mol, rng, nspin)
     state = int(rng.integers(2 ** 31))
     set_threads(1)
-    ref = _stage_outputs(gen, ks, dm, nspin, model, state)
+    gen.nr_eval(ks, dm)      # builds the lazily constructed generators
+    inp = _stage_inputs(ks, dm, nspin, model)
+    ref = _stage_outputs(gen, ks, dm, nspin, model, state, inp)
+    # conditioning of the end-to-end path: its inputs are produced by pyscf's threaded code (ulp-level differences
+    # between team sizes), so the e2e comparison uses max(TOL, 8 x response of the 1-thread result to a 1-ulp change
+    # of the density matrix); stage-level comparisons get bit-identical inputs and keep TOL
+    n_, e_, v_ = gen.nr_eval(ks, dm * (1.0 + 2.0 ** -52))
+    floor = {}
+    for name, b in (("nelec", n_), ("excsum", e_), ("vmat", v_)):
+        a0 = np.asarray(ref["e2e"][name], dtype=float)
+        sc = max(float(np.max(np.abs(a0))), 1e-12)
+        floor[name] = float(np.max(np.abs(np.asarray(b, dtype=float) - a0))) / sc
+    rec.note("e2e_ulp_response", floor)
     calls_before = dict(boot.counters())
     teams = case["teams"]
     for T in teams:
         for repeat in range(2 if T in (teams[0], teams[-1]) else 1):
             set_threads(T)
-            out = _stage_outputs(gen, ks, dm, nspin, model, state)
+            out = _stage_outputs(gen, ks, dm, nspin, model, state, inp)
             if repeat == 0:
                 if T == 1:
                     for st in out:
                         _cmp(rec, case, st, T, ref[st], out[st], "repeat")
                 else:
                     for st in out:
-                        _cmp(rec, case, st, T, ref[st], out[st], "team")
+                        _cmp(rec, case, st, T, ref[st], out[st], "team", floor=floor if st == "e2e" else None)
                 first = out
             else:
                 for st in out:
